@@ -39,7 +39,7 @@ def run(chk: Check):
                 'of present and absent identifiers immediately after additions, after sync, across append sessions, after '
                 'reopening, in merged stores; inconsistent identifier use; tiny caches.  Non-trivial = a lookup before any '
                 'sync in a store with unsorted identifiers, or in an append session / merged store')
-    gen = [{'name': f'gen:{i}', 'ops': su.gen_history(chk.rng, 'C08')} for i in range(chk.n(150, 2500))]
+    gen = [{'name': f'gen:{i}', 'ops': su.gen_history(chk.rng, 'C08')} for i in range(chk.n(150, 2000))]
     su.run_property(chk, 'C08', PROPS, gen, nontrivial)
 
 
